@@ -464,5 +464,5 @@ def run(ctx):
 MANIFEST_ENTRY = {
     "technique": "static analysis: abstract evaluation (rules/absint.py) of get_new_path (with PathBuilder, localize_path, match_path_segments, construct_path_segments) and get_locale_from_path over base-path forms x route tables (params, optional params present / absent, splats with 0-2 segments, localized and locale-like static segments, routes shadowed by an earlier more general route) x 3 locales x query / fragment x explicit default prefix, oracle = the URL built from the statement with leptos_router's matching semantics, explicit A->B->A round trips; evaluation (rules/routeeval.py) of the effects update_path_effect / correct_locale_prefix_effect / check_history_change / maybe_redirect on a modelled location, navigate, context and StoredValue cells, and of match_nested / generate_routes_for_each_locale with the thread-local route locale modelled; structural MIR / syn rules as fallback; the all-locales-walk rule (no filtering / skipping adaptor between L::get_all() and the per-locale work in generate_routes, generate_routes_for_each_locale, match_nested); the as_str / from_str clauses of C13.R0 (the route locale travels as a string); match_nested evaluated against a line-by-line transcription of leptos_router 0.7.8's StaticSegment::test (prefix comparison that stops where the segment's text ends - D28) on routes that are a locale name followed by another route; MIR rule: the thread-local route locale is set in the same closure / function body (or an enclosing closure) in which the inner routes are asked - never in the function body for a closure handed to a lazy iterator constructor",
     "level_text": "Finite abstract evaluation: every (base path form, route, locale pair) of the universe is rewritten by the interpreted code and compared with base + new prefix + the route in the new locale + unchanged query and fragment, and switched back; reading the locale back is decided for every URL of the universe and near-miss first segments; the effects are interpreted in every (previous, context, URL locale, pending history change) situation: afterwards URL and context agree and the URL is the rewrite from the locale that was in it; the route families read a locale from a whole first segment only. leptos' reactive scheduling, the browser history and leptos_router itself are modelled, not run.",
-    "level_note": "Trusted: leptos_router's Location / StaticSegment / wildcard semantics as modelled. D24, D26 repaired upstream. Not decided / not applicable: run-time router state, real navigation histories. Known and undecided (DESIGN 11.17, hunts/C14): after Back/Forward the next locale switch does not rewrite the URL; route segments spelled with a slash; `/fr/en/x` under `/:p/x`; a localized segment that is empty in one locale panics.",
+    "level_note": "Trusted: leptos_router's Location / StaticSegment / wildcard semantics as modelled. D24, D26 repaired upstream. Not decided / not applicable: run-time router state, real navigation histories. Known and undecided (DESIGN 11.17, hunts/C14): route segments spelled with a slash; `/fr/en/x` under `/:p/x`; a localized segment that is empty in one locale panics.",
 }
